@@ -128,6 +128,7 @@ pub fn framing_spaces(tier: Tier) -> Vec<ByteSpace> {
     }
     // packets at the size limits (262 144 bytes and around 65 536 bytes) and well-tiled datagrams of 1..=3 tiles
     v.push(bytes::giants_space());
+    v.push(bytes::giants_runs_space());
     v.push(bytes::tile_seq_space(3));
     v.push(bytes::long_chain_space());
     v
